@@ -614,12 +614,10 @@ class LoaderBase(ABC):
             **align_kwargs,
         )
 
+        # NOTE: must be the shape `model.landscape` actually returns.
+        task_shape = tuple(2 * int(m * upsample) + 1 for m in _max_shifts_px)
         if model.is_multi_templates:
-            task_shape = (model.niter,) + tuple(
-                2 * np.ceil(_max_shifts_px).astype(np.int32) + 1
-            )
-        else:
-            task_shape = tuple(2 * np.ceil(_max_shifts_px).astype(np.int32) + 1)
+            task_shape = (model.niter,) + task_shape
         task_arrays = (
             self.replace(output_shape=model.input_shape)
             .iter_mapping_tasks(
